@@ -197,7 +197,7 @@ def check(case):
 
 def _sweep_items(tier):
     rows = list(range(2, 401)) + list(range(500, 525)) + list(range(1000, 1040)) if tier == "quick" else list(range(2, 2201))
-    return [("outname", k, 0) for k in range(20, 251)] + [(n, 2, 2) for n in rows] + [(3, w, 2) for w in range(1, 261)] + [(3, 70, nl) for nl in range(1, 341)] + \
+    return [("outname", k, 0) for k in range(20, 251)] + [(n, 2, 2) for n in rows] + [(3, w, 2) for w in list(range(1, 261)) + list(range(505, 531)) + list(range(1020, 1045))] + [(3, 70, nl) for nl in range(1, 341)] + \
            [(n, 61, 2) for n in (16, 17, 18, 340, 341, 342, 510, 511, 512, 513)]
 
 
@@ -214,6 +214,11 @@ def _sweep_case(item):
         rows.append("".join(r))
     if w == 1:
         rows = ["A-" if i % 2 else "-A" for i in range(n)]
+    if w > 300:
+        # around the 512-residue increments of the row buffers: a full row, a row whose last residue (number w-5) is followed
+        # by a gap run, a row that starts with a gap run
+        full = "".join("ACGT"[(c * 7 + c // 3) % 4] for c in range(w))
+        rows = [full, full[:w - 5] + "-----", "---" + full[3:]][:n] + [full] * max(0, n - 3)
     names = [("s%d_" % i + "n" * nl)[:max(nl, len("s%d" % i))] for i in range(n)]
     return {"src": {"names": names, "rows": rows, "source": "synthetic"}, "chain": ["fasta", "msf", "clu"][(n + w + nl) % 3:] + ["clu"]}
 
@@ -240,5 +245,5 @@ def extra(tier, seed, stats):
             stats.record(c, r)
             if r["status"] == "violation":
                 out.append({"case": c, "detail": r["detail"], "kind": r.get("kind")})
-    stats.extra["sweep"] = "every row count %s (width 2), every width 1..260 (3 rows), every name length 1..340, every output file name length 20..250 for a protein alignment (exhaustive over those ranges)" % ("2..400, 500..524, 1000..1039" if tier == "quick" else "2..2200")
+    stats.extra["sweep"] = "every row count %s (width 2), every width 1..260, 505..530, 1020..1044 (3 rows), every name length 1..340, every output file name length 20..250 for a protein alignment (exhaustive over those ranges)" % ("2..400, 500..524, 1000..1039" if tier == "quick" else "2..2200")
     return out
